@@ -152,6 +152,9 @@ pub struct Structure {
     /// are placed exactly there
     #[serde(default)]
     pub hot: Vec<usize>,
+    /// a frame of an unknown type sits between the HEADERS frame and its CONTINUATION
+    #[serde(default)]
+    pub interposed: bool,
     /// a second header block (trailers) follows on the first message's stream
     pub has_trailers: bool,
     /// an RST_STREAM frame follows the first message's head on its stream
@@ -514,6 +517,13 @@ pub fn connection_start(r: &mut Rng, o: &Opts) -> (Vec<u8>, Structure) {
         payload.extend(std::iter::repeat(0u8).take(pad));
         out.extend_from_slice(&frame(1, flags, sid, &payload));
         st.first_headers_frame_end = out.len();
+        // a peer that does not keep to the rules: a frame of an unknown type between HEADERS and its CONTINUATION.
+        // What the header block is then is not defined by the format; incremental and one-shot extraction must
+        // still agree with each other
+        if r.chance(1, 8) {
+            out.extend_from_slice(&frame(*r.pick(&[0x0au8, 0x0c, 0x21, 0xfa]), 0, *r.pick(&[0u32, sid]), &r.bytes(r.clone().urange(0, 12))));
+            st.interposed = true;
+        }
         out.extend_from_slice(&frame(9, F_END_HEADERS, sid, &block[cut..]));
         st.uses_continuation = true;
     } else {
@@ -567,7 +577,7 @@ pub fn connection_start(r: &mut Rng, o: &Opts) -> (Vec<u8>, Structure) {
 
 /// The Akamai fingerprint string S|WU|P|PS computed from the generator's structure (reference model).
 pub fn akamai_reference(st: &Structure) -> Option<(String, String)> {
-    if st.has_oversized_frame {
+    if st.has_oversized_frame || st.interposed {
         return None;
     }
     let settings = st.first_settings.as_ref()?;
